@@ -37,6 +37,8 @@ type World struct {
 	unrolls   map[string]*ssa.Function
 	contracts map[*ssa.Function]*ssa.Function
 	loadTime  float64
+	init      *initInfo
+	trueInv   *ssa.Function
 }
 
 var repoDir = "/repo"
@@ -79,6 +81,9 @@ func loadWorld(patterns []string, goarch string) (*World, error) {
 			fn, ok := p.Members[n].(*ssa.Function)
 			if !ok || !strings.HasPrefix(n, "verif_") {
 				continue
+			}
+			if n == "verif_true" {
+				w.trueInv = fn
 			}
 			switch {
 			case strings.HasPrefix(n, "verif_inv_"):
@@ -162,6 +167,7 @@ func (w *World) runHarness(h *Harness) (res *Result) {
 	res.engine = e
 	e.contracts = w.contracts
 	e.invs, e.decs, e.unrolls = w.invs, w.decs, w.unrolls
+	e.trueInv = w.trueInv
 	e.props = h.Props
 	e.topPkg = h.Pkg
 	e.curTop = h.Name
@@ -193,7 +199,36 @@ func (w *World) runHarness(h *Harness) (res *Result) {
 		}
 	}()
 	fn := h.Fn
-	st := &State{pc: True, cells: map[cellKey][]*Term{}, mems: map[string]*Mem{}, clos: map[cellKey]*Closure{}, caddr: map[cellKey]*Addr{}, ghost: map[string]*Term{}}
+	ii := w.buildInit()
+	st := ii.st.clone()
+	st.cells = map[cellKey][]*Term{}
+	e.globalsRO = ii.ro
+	for k, v := range ii.literals {
+		e.literals[k] = v
+	}
+	for k, v := range ii.litByID {
+		e.litByID[k] = v
+	}
+	for k, v := range ii.fieldIDs {
+		e.fieldIDs[k] = v
+	}
+	for k, v := range ii.typeTags {
+		e.typeTags[k] = v
+	}
+	for k, v := range ii.ifaceVals {
+		e.ifaceVals[k] = v
+	}
+	for k, v := range ii.strLitIDs {
+		e.strLitIDs[k] = v
+	}
+	e.allocSeq = ii.allocSeq
+	// globals that may be written after init are arbitrary at entry
+	for name, m := range st.mems {
+		if strings.HasPrefix(name, "global:") {
+			_ = m
+		}
+	}
+	w.havocMutableGlobals(st, ii)
 	fr := e.newFrame(fn, nil)
 	fr.spec = true
 	fr.hctx = &harnessCtx{mode: modeVerify, target: h.Target, name: h.Name}
@@ -350,3 +385,20 @@ func solveAll(res *Result, timeout time.Duration, portfolio bool) {
 }
 
 var _ = types.Typ
+
+func (w *World) havocMutableGlobals(st *State, ii *initInfo) {
+	ro := map[string]bool{}
+	for g := range ii.ro {
+		t := g.Type().(*types.Pointer).Elem()
+		if ls, ok := tryLeaves(t); ok {
+			for _, l := range ls {
+				ro[globalMemName(g, l)] = true
+			}
+		}
+	}
+	for name, m := range st.mems {
+		if strings.HasPrefix(name, "global:") && !ro[name] {
+			st.mems[name] = NewBaseMem(name, m.ksort, m.sort, "M0."+name)
+		}
+	}
+}
